@@ -171,6 +171,18 @@ var registerOperatorFailures int
 
 // viaOptionFuncs: build the optimization subset through the Optimizations(...) option functions instead of the map
 func (o OptSet) optionFuncs(r interface{ Intn(int) int }) []eval.Option {
+	fs := o.optionFuncsPlain(r)
+	// a base Config that says nothing about optimizations, merged in before or after the choice: it decides nothing
+	switch r.Intn(3) {
+	case 0:
+		fs = append(fs, eval.ExtendConf(eval.NewConfig()))
+	case 1:
+		fs = append([]eval.Option{eval.ExtendConf(eval.NewConfig(eval.EnableUndefinedVariable))}, fs...)
+	}
+	return fs
+}
+
+func (o OptSet) optionFuncsPlain(r interface{ Intn(int) int }) []eval.Option {
 	var on, off []eval.CompileOption
 	for i, n := range optNames {
 		if o&(1<<uint(i)) != 0 {
